@@ -936,6 +936,8 @@ func (e *Engine) popFrame(st *State, f *Frame, res Value) int {
 		// a deferred goroutine that was run while its spawner waited has finished: the spawner's
 		// blocking instruction re-executes
 		st.goDepth--
+		st.goStack = st.goStack[:len(st.goStack)-1]
+		st.epoch++ // whoever waits for this goroutine's effects may look again
 		return stCont
 	}
 	if f.catch {
